@@ -60,6 +60,7 @@ CUBICS = {
     'C_axis_line_shaped': (0j, 1 + 0j, 2 + 0j, 3 + 0j),
     'C_nearly_quadratic': (0j, 2.000001 + 4j, 4 + 4j, 6 + 0j),   # leading coefficient 3e-6 (tiny but significant)
     'C_uneven_legs': (0j, 1.5 + 0j, 2 + 0.25j, 30 + 40j),        # legs 1.5 : 0.56 : 49
+    'C_teardrop': (0.3 + 0.1j, 3.1 + 2.3j, -2.2 + 2.9j, 0.3 + 0.1j),   # closes on itself (start == end), non-dyadic
 }
 
 # (start, radius, rotation, large_arc, sweep, end)
@@ -76,6 +77,7 @@ ARCS = {
     'A_negative_radius': (0j, -3 - 2j, -725, 1, 1, 2 + 3j),
     'A_rot180_large': (2 + 0j, 2 + 1j, 180, 1, 1, -1j),       # rotation an odd multiple of 180: not the unrotated ellipse's frame
     'A_rot360': (0j, 3 + 1j, 360, 0, 1, 4 + 1j),
+    'A_cw_large_rot30': (-1 - 5j, 6 + 4j, 30, 1, 0, 3 - 4j),      # clockwise large arc of a rotated ellipse: theta + delta < -360
     'A_nearly_circular': (0j, 2 + 2.000006j, 0, 1, 1, 2 + 2j),   # radii differ by 3e-6 relative: an ellipse, not a circle
 }
 
